@@ -153,7 +153,7 @@ def run_(v, pid, tier):
     r_ = rng(5)
     names = [["a"], ["b"], ["www", "a"], ["x", "y", "z"], ["c"], ["d"]]
     types = ["A", "AAAA", "TXT", "CNAME", "NS", "MX"]
-    nhist = 300 if tier == "quick" else 3000
+    nhist = 300 if tier == "quick" else 2000
     ops = []
     for i in range(nhist):
         ops += random_history(r_, r_.randint(10, 80), names[:r_.randint(2, 6)], types[:r_.randint(1, 6)],
@@ -181,7 +181,7 @@ def run_(v, pid, tier):
     v.sample({"random_history_first_events": [{k: e[k] for k in e if k != "post"} for e in events[:8]]})
     # --- TV: concurrent histories
     docs = []
-    ndocs = 60 if tier == "quick" else 1000
+    ndocs = 60 if tier == "quick" else 500
     for i in range(ndocs):
         docs.append(random_threads_doc(r_, r_.randint(2, 8), names[:r_.randint(2, 4)], ["A", "TXT"],
                                        r_.choice([1, 2, 3, 6])))
